@@ -263,7 +263,7 @@ class Skeleton:
             else:
                 tag = "strict" if self.attr(pid)["strict"] else "weak"
             rest = self.chain(src, inp, x, ps, depth + 1)
-            return None if rest is None else rest + [(tag, pid)]
+            return None if rest is None else rest + [(tag, pid, t)]
         if rem[0] == "index":
             r = rem[2]
             if r[0] == "struct" and r[1].endswith("RangeFrom"):
